@@ -727,8 +727,8 @@ class QvmCpu:
 
         if a.type != b.type:
             self.trap(TrapCode.TYPE_MISMATCH,
-                      a.type,
-                      b.type)
+                      expected=a.type,
+                      got=b.type)
 
         if a.value == b.value:
             result = 0
@@ -1286,7 +1286,7 @@ class QvmCpu:
         if not value.type.is_numeric:
             self.trap(TrapCode.TYPE_MISMATCH,
                       expected='numeric',
-                      got=a.type)
+                      got=value.type)
         v = value.value
         sign = 1 if v > 0 else -1 if v < 0 else 0
         self.push(value.type, value.type.py_type(sign))
@@ -1383,7 +1383,7 @@ class QvmCpu:
         else:
             if length.type != CellType.INTEGER:
                 self.trap(TrapCode.TYPE_MISMATCH,
-                          expected=Type.INTEGER,
+                          expected=CellType.INTEGER,
                           got=length.type)
             length = length.value
 
